@@ -91,6 +91,20 @@ MUT=[ # (id, file, old, new, kind)
  ('H18 leapYear temporary','models/functions/dates.go','if y%4 != 0 {','r4 := y % 4\n\tif r4 != 0 {','harmless'),
  ('H19 dayOfYear rename','models/functions/dates.go','doy := 0\n\tfor mi := 1; mi < m; mi++ {\n\t\tdoy += daysInMonth(mi, y)\n\t}\n\tdoy += d\n\treturn doy','total := 0\n\tfor k := 1; k < m; k++ {\n\t\ttotal += daysInMonth(k, y)\n\t}\n\ttotal += d\n\treturn total','harmless'),
  ('H20 Equal temporaries','util/slice/slice.go','if lhs[i] != rhs[i] {','l := lhs[i]\n\t\tr := rhs[i]\n\t\tif l != r {','harmless'),
+ # loop forms, merged / inverted conditions, explicit comparisons for library min / max (absorbed since work package R1)
+ ('H21 Index as a range loop with a hoisted field','data/arrays.go','\tresult := nd.Start\n\tfor i := 0; i < len(loc); i++ {\n\t\tresult += loc[i] * nd.OffsetStep[i]\n\t}','\tresult := nd.Start\n\toffsetStep := nd.OffsetStep\n\tfor i, l := range loc {\n\t\tresult += l * offsetStep[i]\n\t}','harmless'),
+ ('H22 IntsToUints as an index loop','conv/slices.go','\tresult := make([]uint, len(ints))\n\tfor i, v := range ints {\n\t\tresult[i] = uint(v)\n\t}','\tn := len(ints)\n\tresult := make([]uint, n)\n\tfor i := 0; i < n; i++ {\n\t\tresult[i] = uint(ints[i])\n\t}','harmless'),
+ ('H23 Increment with the test inverted','data/sliceops.go','\t\tif vector[i] >= wrt[i] {\n\t\t\tvector[i] = 0\n\t\t} else {\n\t\t\treturn\n\t\t}','\t\tif vector[i] < wrt[i] {\n\t\t\treturn\n\t\t}\n\t\tvector[i] = 0','harmless'),
+ ('H24 Contiguous: three early returns merged into one condition','data/arrays.go','\t\tif nd.Dims[i] > 1 {\n\t\t\tif dimsMustBeOne {\n\t\t\t\treturn false\n\t\t\t}\n\n\t\t\tif nd.Step[i] > 1 {\n\t\t\t\treturn false\n\t\t\t}\n\n\t\t\tif nd.Offset[i] > contiguousOffset {\n\t\t\t\treturn false\n\t\t\t}\n','\t\tif nd.Dims[i] > 1 && (dimsMustBeOne || nd.Step[i] > 1 || nd.Offset[i] > contiguousOffset) {\n\t\t\treturn false\n','harmless'),
+ ('H25 sliceSize with explicit comparisons','io/hdf5_util.go','\treturn (m.MaxInt(0, (m.MinInt(size, slice[1])-m.MinInt(size, slice[0]))) + slice[2] - 1) / slice[2]','\tstop := slice[1]\n\tif size < stop {\n\t\tstop = size\n\t}\n\tstart := slice[0]\n\tif size < start {\n\t\tstart = size\n\t}\n\tlength := stop - start\n\tif length < 0 {\n\t\tlength = 0\n\t}\n\tstep := slice[2]\n\treturn (length + step - 1) / step','harmless'),
+ ('H26 daysInMonth as a switch','models/functions/dates.go',None,None,'harmless-patch:h3.diff'),
+ # more semantic mutants of the functions whose proofs were made more flexible (they must still fail)
+ ('M29 Increment inverted test wrong (<=)','data/sliceops.go','\t\tif vector[i] >= wrt[i] {\n\t\t\tvector[i] = 0\n\t\t} else {\n\t\t\treturn\n\t\t}','\t\tif vector[i] <= wrt[i] {\n\t\t\treturn\n\t\t}\n\t\tvector[i] = 0','mut'),
+ ('M30 sliceSize clamps start to 0 instead of size','io/hdf5_util.go','m.MinInt(size, slice[0])','m.MinInt(0, slice[0])','mut'),
+ ('M31 Contiguous merged condition drops the offset test','data/arrays.go','\t\t\tif nd.Offset[i] > contiguousOffset {\n\t\t\t\treturn false\n\t\t\t}\n','','mut'),
+ ('M32 IntsToUints index loop starts at 1','conv/slices.go','\tfor i, v := range ints {\n\t\tresult[i] = uint(v)\n\t}','\tfor i := 1; i < len(ints); i++ {\n\t\tresult[i] = uint(ints[i])\n\t}','mut'),
+ ('M33 Index range loop reads Offset','data/arrays.go','\tfor i := 0; i < len(loc); i++ {\n\t\tresult += loc[i] * nd.OffsetStep[i]\n\t}','\tfor i, l := range loc {\n\t\tresult += l * nd.Offset[i]\n\t}','mut'),
+ ('M34 SliceInto inline loop multiplies by Offset of dest twice','data/arrays.go','dest.OffsetStep = Multiply(dest.Step, dest.Offset)','dest.OffsetStep = Multiply(dest.Offset, dest.Offset)','mut'),
 ]
 
 
@@ -104,7 +118,7 @@ def contig_rename(s):
 def main(sel):
     verif = os.path.dirname(os.path.dirname(os.path.abspath(__file__)))
     repo = '/tmp/repo-genidx-%d' % os.getpid()
-    shutil.copytree('/repo', repo, symlinks=True)
+    shutil.copytree(os.environ.get('OW_REPO', '/repo'), repo, symlinks=True, ignore=shutil.ignore_patterns('.git'))
     env = dict(os.environ, OW_REPO=repo, GOFLAGS='-mod=mod', GOPROXY='off', GOSUMDB='off', GOTOOLCHAIN='local')
     bad = 0
     try:
@@ -115,6 +129,13 @@ def main(sel):
             orig = open(p).read()
             if kind == 'harmless-fn':
                 mod = contig_rename(orig)
+            elif kind.startswith('harmless-patch:'):
+                diff = os.path.join(verif, 'harmless', kind.split(':', 1)[1])
+                if subprocess.run(['git', 'apply', diff], cwd=repo, capture_output=True).returncode != 0 \
+                        and subprocess.run(['patch', '-p1', '-s', '-i', diff], cwd=repo, capture_output=True).returncode != 0:
+                    print(mid, 'SKIPPED: the stored patch no longer applies')
+                    continue
+                mod = open(p).read()
             else:
                 if orig.count(old) != 1:
                     print(mid, 'SKIPPED: the source text of this entry is no longer there')
@@ -136,12 +157,12 @@ def main(sel):
                 if mid.startswith('H17b'):
                     expected = True
                 bad += 0 if expected and compiles else 1
-                print('%-4s %-70s %-8s %s%s' % ('ok' if expected and compiles else 'BAD', mid, kind.split('-')[0], verdict, '' if compiles else '  (Go does not compile!)'), flush=True)
+                print('%-4s %-70s %-8s %s%s' % ('ok' if expected and compiles else 'BAD', mid, kind.split('-')[0].split(':')[0], verdict, '' if compiles else '  (Go does not compile!)'), flush=True)
             finally:
                 open(p, 'w').write(orig)
     finally:
         shutil.rmtree(repo, ignore_errors=True)
-        subprocess.run([sys.executable, '-m', 'vlib.genidx'], cwd=verif, env=dict(env, OW_REPO='/repo'), capture_output=True)
+        subprocess.run([sys.executable, '-m', 'vlib.genidx'], cwd=verif, env=dict(env, OW_REPO=os.environ.get('OW_REPO', '/repo')), capture_output=True)
     return 1 if bad else 0
 
 
